@@ -1,3 +1,5 @@
 import EmdProofs.Basic
 import EmdProofs.TreeWF
 import EmdProofs.Roundtrip
+import EmdProofs.Append
+import EmdProofs.AppendSpec
